@@ -1,4 +1,20 @@
+import sys
+
 from ckl.errors import CklSyntaxError
+
+
+def without_digit_limit(convert, *args):
+    """int <-> text conversion of a literal of any length (the host limits
+    it to 4300 digits by default)."""
+    try:
+        return convert(*args)
+    except ValueError:
+        limit = sys.get_int_max_str_digits()
+        sys.set_int_max_str_digits(0)
+        try:
+            return convert(*args)
+        finally:
+            sys.set_int_max_str_digits(limit)
 
 KEYWORDS = [
     "if",
@@ -469,10 +485,9 @@ class Lexer:
                     here = start
                     if not is_hex(token.replace("_", "")):
                         raise CklSyntaxError("Invalid hex literal", here)
-                    try:
-                        token = str(int(token.replace("_", ""), 16))
-                    except ValueError:
-                        raise CklSyntaxError("Int literal is too long", here)
+                    token = without_digit_limit(
+                        str, int(token.replace("_", ""), 16)
+                    )
                     self.tokens.append(Token(token, "int", here))
                     token = ""
                     pos -= 1
@@ -489,10 +504,9 @@ class Lexer:
                     here = start
                     if token.replace("_", "") == "":
                         raise CklSyntaxError("Invalid binary literal", here)
-                    try:
-                        token = str(int(token.replace("_", ""), 2))
-                    except ValueError:
-                        raise CklSyntaxError("Int literal is too long", here)
+                    token = without_digit_limit(
+                        str, int(token.replace("_", ""), 2)
+                    )
                     self.tokens.append(Token(token, "int", here))
                     token = ""
                     pos -= 1
